@@ -20,6 +20,9 @@ from utype.utils import base as _ubase, transform as _utransform, compat as _uco
 
 # utype guards the first-use resolution with a lock: under the controlled scheduler it must be a cooperative one
 _pbase.threading = types.SimpleNamespace(RLock=e3.CoopRLock, Lock=e3.CoopRLock)
+if hasattr(_pbase, "__forward_refs_lock__"):
+    # the lock shared by all parsers was made at import time: a real lock would park a thread the scheduler counts as running
+    _pbase.__forward_refs_lock__ = e3.CoopRLock()
 
 ID = "C20"
 LEVEL = "model_checking"
@@ -43,7 +46,7 @@ ASSUMPTIONS = [
     "the parser cache and the registry cache are reset; a failing schedule is replayed and must reproduce",
 ]
 
-NAMES = {"__call__", "resolve_forward_refs", "apply_for", "resolve_parser", "register_forward_ref", "resolve_forward_type",
+NAMES = {"__call__", "resolve_forward_refs", "_resolve_forward_refs", "_register_rule_refs", "generate_generator_types", "setup_discriminator", "apply_for", "resolve_parser", "register_forward_ref", "resolve_forward_type",
          "evaluate_forward_ref", "register", "resolve", "apply", "resolve_extra_forward_types", "init_dataclass",
          "transform_dataclass", "decorator", "resolver_transformer", "register_forward_refs", "parse_annotation"}
 _INSTR = None
@@ -122,6 +125,32 @@ class Amount(int, Rule):
     ge = 0
 class Tag(str, Rule):
     max_length = 3
+'''
+
+SRC_BASE_SUB = '''
+from utmc.ns import *
+class Base(Schema):
+    level: 'Level' = Field(ge=1)
+    n: int = 0
+class Sub(Base):
+    extra: int = 0
+Level = int
+'''
+
+SRC_REG_MANY = '''
+from utmc.ns import *
+class KB(int):
+    pass
+@utype.register_transformer(KB)      # the latest registration: found at once, so a first resolution is a few lines long
+def to_kb(transformer, data, t):
+    return t(int(data))
+KS = [type("K%d" % i, (KB,), {}) for i in range(150)]
+for _k in KS[1:100] + KS[:1]:
+    type_transform(1, _k)       # the resolution cache of the shared registry knows 100 types, KS[0] is the latest
+def many(lo, hi):
+    # first resolution of further types, through the registry itself (fewer scheduling points than full conversions)
+    reg = utype.TypeTransformer.registry
+    return len([reg.resolve(k) for k in KS[lo:hi]])
 '''
 
 SRC_TYPE = '''
@@ -216,6 +245,11 @@ SCENARIOS = {
     # the whole return annotation of a generator is one pending reference: its yield type exists only after resolution
     "generator-whole-annotation-ref": (SRC_GEN_WHOLE, ["[type(x).__name__ for x in g(2)]", "[x.v for x in g('3')]", "[type(x).__name__ for x in g(2)]"],
                                        "[type(x).__name__ for x in g(1)]"),
+    # a subclass shares the pending references and the fields of its base, but each class has a parser of its own
+    "base-sub-constrained-ref": (SRC_BASE_SUB, ["Base(level='5').level", "Sub(level=0, extra='1')", "Sub(level='2').level"], "Base(level=0)"),
+    # a well-filled resolution cache: one thread reads an entry while another one resolves a type for the first time
+    "registry-cache-many-types": (SRC_REG_MANY, ["type_transform('5', KS[0]) + 0", "many(100, 140)", "type_transform('7', KS[0]) + 0"],
+                                  "type_transform('2', KS[0]) + 0"),
     "registry-race-warm": (SRC_REG_WARM, ["type_transform(1, Sub)", "type_transform(2, Sub)", "utype.register_transformer(Other)(other_converter) and None"],
                            "type_transform(2, Sub)"),
     "registry-race": (SRC_REG, ["type_transform(1, Sub)", "type_transform(2, Sub)", "utype.register_transformer(Sub)(new_converter) and None"],
